@@ -350,5 +350,8 @@ def surrogate_forms():
     """surrogate pairs whose halves are spelled in the same or in different forms (4 digits / braced, either case), alone and
     followed by more text; lone halves; halves in the wrong order"""
     hi, lo = ['\\uD83D', '\\u{D83D}', '\\ud83d'], ['\\uDE00', '\\u{DE00}', '\\ude00']
-    return [h + l + tail for h in hi for l in lo for tail in ('', 'a', '\\u0041')] + hi + lo + [l + h for h in hi[:2] for l in lo[:2]] + \
+    # every plane: the first and last high surrogate, the first one whose offset needs more than 16 bits after the shift (D840),
+    # first / last low surrogate
+    planes = [h + l for h in ('\\uD800', '\\uD83F', '\\uD840', '\\uD869', '\\uDBFF', '\\u{D840}', '\\u{DBFF}') for l in ('\\uDC00', '\\uDED6', '\\uDFFF', '\\u{DFFF}')]
+    return planes + ['a' + x + 'b' for x in planes[8:12]] + [h + l + tail for h in hi for l in lo for tail in ('', 'a', '\\u0041')] + hi + lo + [l + h for h in hi[:2] for l in lo[:2]] + \
            ['x' + h + l for h in hi[:2] for l in lo[:2]] + [h + 'x' + l for h in hi[:2] for l in lo[:2]]
